@@ -27,7 +27,7 @@ NCopies(c) == Len(c.call)
 
 (* the stage's evidence filter: a non-reference op that is not a considered variant is    *)
 (* only eligible in exons/UTRs/upstream                                                    *)
-Elig(s, o) == o.op = "_" \/ o.var # 0 \/ s.keepall
+Elig(s, o) == o.op \in {"_", "-"} \/ o.var # 0 \/ s.keepall       \* "-": deleted bases count towards the depth
 PrepSite(s) == [s EXCEPT !.ops = [k \in DOMAIN s.ops |-> [s.ops[k] EXCEPT !.elig = Elig(s, s.ops[k])]]]
 
 NoOp == [op |-> "", good |-> 0, low |-> 0, ins |-> FALSE, var |-> 0, tab |-> <<>>, elig |-> TRUE]
